@@ -1,17 +1,19 @@
 #!/bin/sh
-# usage: soak.sh <tier> <seed> [<seed> ...]  - runs every check at each seed, prints one line per run; evidence/replays go to a scratch dir
-TIER="$1"; shift
+# soak.sh <tier> <first_seed> <last_seed>: every check of the given tier under each VERIF_SEED; prints one line per non-zero exit
+TIER=${1:-quick}; A=${2:-1}; B=${3:-10}
 HERE="$(cd "$(dirname "$0")/.." && pwd)"
-OUT="$(mktemp -d /tmp/verif-soak.XXXXXX)"
-trap 'rm -rf "$OUT"' EXIT
-BAD=0
-for SEED in "$@"; do
-  for P in C01 C02 C03 C04 C05 C06 C07 C08 C09 C10 C11 C12 C13 C14 C15 C16 C17 C18 C19 C20; do
-    VERIF_SEED=$SEED VERIF_OUT="$OUT" "$HERE/check" $P $TIER > "$OUT/log" 2>&1
-    RC=$?
-    LINE=$(grep -E "^$P $TIER" "$OUT/log" | sed -E 's/faults=.*new_violations/new_violations/')
-    echo "seed=$SEED rc=$RC $LINE"
-    if [ $RC -ne 0 ]; then BAD=1; grep -E "clause=|HARNESS|detail" "$OUT/log" | grep -v KNOWN | head -8; mkdir -p "$HERE/soak_failures"; cp "$OUT"/replays/$P-* "$HERE/soak_failures/" 2>/dev/null; fi
+cd "$HERE"
+s=$A
+while [ "$s" -le "$B" ]; do
+  for id in C01 C02 C03 C04 C05 C06 C07 C08 C09 C10 C11 C12 C13 C14 C15 C16 C17 C18 C19 C20; do
+    VERIF_SEED=$s ./check $id $TIER > /tmp/soak_$$.out 2>&1
+    rc=$?
+    if [ $rc -ne 0 ] || grep -q '^VIOLATION\|HARNESS-ERROR' /tmp/soak_$$.out; then
+      echo "SOAK-ALARM seed=$s id=$id rc=$rc"; grep -a 'VIOLATION\|HARNESS\|Traceback' /tmp/soak_$$.out | head -5
+      mkdir -p soak_out; cp /tmp/soak_$$.out soak_out/$id-$s.out
+    fi
   done
+  echo "seed $s done $(date +%T)"
+  s=$((s+1))
 done
-exit $BAD
+rm -f /tmp/soak_$$.out
